@@ -747,7 +747,29 @@ func messageRoundTrips(run *core.Run, p *plan, shard uint64) {
 		run.Fail("message-differs-after-round-trip", "CreateIteratorResponse", "sent %+v got %+v (%v)", ir, ir2, err)
 		return
 	}
-	fr := coordinator.FieldDimensionsResponse{Fields: map[string]influxql.DataType{"f": influxql.Float, "s s": influxql.String}, Dimensions: map[string]struct{}{"a": {}, "": {}}}
+	// every data type a node can name in an answer (the list is closed:
+	// unknown .. unsigned), with and without an error beside it
+	allTypes := []influxql.DataType{influxql.Unknown, influxql.Float, influxql.Integer, influxql.String, influxql.Boolean, influxql.Time, influxql.Duration, influxql.Tag, influxql.AnyField, influxql.Unsigned}
+	allFields := map[string]influxql.DataType{}
+	for _, dt := range allTypes {
+		allFields["field of type "+dt.String()] = dt
+		r1 := coordinator.CreateIteratorResponse{Type: dt, Stats: query.IteratorStats{SeriesN: int(dt), PointN: 1}}
+		b, _ = r1.MarshalBinary()
+		var r1b coordinator.CreateIteratorResponse
+		if err := r1b.UnmarshalBinary(b); err != nil || r1b.Err != nil || r1b.Type != dt || r1b.Stats != r1.Stats {
+			run.Fail("message-differs-after-round-trip", "CreateIteratorResponse", "sent type %s, got %+v (%v)", dt, r1b, err)
+			return
+		}
+		r2 := coordinator.MapTypeResponse{Type: dt}
+		b, _ = r2.MarshalBinary()
+		var r2b coordinator.MapTypeResponse
+		if err := r2b.UnmarshalBinary(b); err != nil || r2b.Err != nil || r2b.Type != dt {
+			run.Fail("message-differs-after-round-trip", "MapTypeResponse", "sent type %s, got %+v (%v)", dt, r2b, err)
+			return
+		}
+	}
+	run.Probe("response-types-round-trip")
+	fr := coordinator.FieldDimensionsResponse{Fields: allFields, Dimensions: map[string]struct{}{"a": {}, "": {}}}
 	b, _ = fr.MarshalBinary()
 	var fr2 coordinator.FieldDimensionsResponse
 	if err := fr2.UnmarshalBinary(b); err != nil || !reflect.DeepEqual(fr.Fields, fr2.Fields) || !reflect.DeepEqual(fr.Dimensions, fr2.Dimensions) {
@@ -1166,7 +1188,7 @@ func TestC15(t *testing.T) {
 		Bubble:         true,
 		Warmup:         func() { storesim.Warmup() },
 		Describe:       describe,
-		RequiredProbes: []string{"attack-malformed", "attack-wellformed", "attack-got-reply", "stream-points-verified", "stream-empty-tag-value", "write-request-round-trip", "iterator-request-round-trip"},
+		RequiredProbes: []string{"attack-malformed", "attack-wellformed", "attack-got-reply", "stream-points-verified", "stream-empty-tag-value", "write-request-round-trip", "iterator-request-round-trip", "response-types-round-trip"},
 		Real:           []string{"coordinator.Service.handleConn and every process*Request behind it", "tcp.Mux (second delivery of every stream)", "coordinator rpc.go Marshal/Unmarshal", "ShardWriter / MetaExecutor / coordinator.Client (corpus capture, liveness probes)", "query.IteratorEncoder / ReaderIterator / point codec", "tsdb.Store of both nodes"},
 		Stub:           []string{"meta.Client over generated metadata", "Service.Server (join/leave/reset are not driven)", "hinted handoff"},
 		Assumptions:    []string{"the maximum frame size is the documented 1 GiB", "allocation is observed as the growth of runtime.MemStats.TotalAlloc while the stream is served (+256 MiB slack for the rest of the process)"},
